@@ -51,16 +51,18 @@ def cost(tier, seed, info):
         if b['result'].startswith('esc'):
             out['failures'].append(Failure({'family': f, 'n': 1024, 'mode': 'work'}, 'escape', 'family %s: %s' % (f, b['result'])))
     # (2) CPU time: modest sizes in the quick tier, large in the thorough tier / for suspects
-    sizes = (1 << 14, 1 << 16) if tier == 'quick' else (1 << 16, 1 << 18, 1 << 20)
+    sizes = (1 << 10, 1 << 12, 1 << 14, 1 << 16) if tier == 'quick' else (1 << 12, 1 << 14, 1 << 16, 1 << 18, 1 << 20)
     def timed(f, szs, reps=3):
+        """ascending sizes; stops as soon as one run needs more than 3 s of CPU (a super-linear family shows long
+        before the large sizes; a linear one reaches them cheaply)"""
         res = []
         for n in szs:
-            r = _run('cost_probe.py', [f, n, 'time', reps], timeout=1800)
+            r = _run('cost_probe.py', [f, n, 'time', reps if n < (1 << 16) else 2], timeout=1800)
             out['evaluations'] += 1
             if 'error' in r:
                 return None, r['error']
             res.append((n, r['len'], r['time']))
-            if r['time'] > 120:
+            if r['time'] > 3:
                 break
         return res, None
     def judge_times(f, res):
